@@ -42,3 +42,80 @@ Example C01_witness_32 : wf true deep32 = true /\ depth deep32 = 32%nat.
 Proof. exact deep32_ok. Qed.
 Example C01_witness_33 : wf true deep33 = true /\ depth deep33 = 33%nat.
 Proof. exact deep33_ok. Qed.
+
+(* ---------- additions: the round trip for values WITH duplicate keys ("maps as sets") ---------- *)
+From Aldrin Require Import Codec.MapLastWins.
+
+(* [wfd] = [wf] without the duplicate-freeness requirement on map/set/struct entry lists (the wire
+   format and the serialize_map*/set*/struct* API can carry duplicates; a Rust HashMap cannot);
+   [norm v] = v with every entry list deduplicated by HashMap-style last-wins insertion
+   ([dedup_map]/[dedup_set]/[dedup_struct] of Codec/De.v), recursively.
+   Every serializable value round-trips to its normal form, in both epochs ... *)
+Theorem C01_roundtrip_general : forall e v, wfd true v = true -> (depth v <= 32)%nat ->
+  exists bs, serialize e v = Ok bs /\ de_as_value true bs = Ok (norm v).
+Proof. exact roundtrip_general. Qed.
+Print Assumptions C01_roundtrip_general.
+
+(* ... which extends C01_roundtrip: wf values are wfd and are their own normal form ... *)
+Theorem C01_norm_wf_id : forall v, wf true v = true -> wfd true v = true /\ norm v = v.
+Proof. exact (fun v H => conj (wf_wfd true v H) (norm_wf_id true v H)). Qed.
+Print Assumptions C01_norm_wf_id.
+
+(* ... and what comes back is always well-formed in the strict sense: no duplicate keys *)
+Theorem C01_norm_wf : forall v, wfd true v = true -> wf true (norm v) = true.
+Proof. exact (norm_wf true). Qed.
+Print Assumptions C01_norm_wf.
+
+(* one map with duplicate keys: the decoded entry list is the last-wins deduplication *)
+Theorem C01_map_last_wins : forall e k l, wfd true (VMap k l) = true -> (depth (VMap k l) <= 32)%nat ->
+  exists bs, serialize e (VMap k l) = Ok bs /\
+             de_as_value true bs = Ok (VMap k (dedup_map (map (fun p => (fst p, norm (snd p))) l))).
+Proof. exact map_last_wins. Qed.
+Print Assumptions C01_map_last_wins.
+
+(* what the deduplication computes, independently of the fold that defines it: no key twice, and
+   looking a key up gives the value of its LAST entry in the original list
+   ([map_lookup_last k l] = the value of the last entry of l with key k) *)
+Theorem C01_dedup_map_spec : forall l,
+  keys_nodup (map fst (dedup_map l)) = true /\
+  (forall k, map_lookup_last k (dedup_map l) = map_lookup_last k l) /\
+  (length (dedup_map l) <= length l)%nat.
+Proof. exact dedup_map_spec. Qed.
+Print Assumptions C01_dedup_map_spec.
+
+Theorem C01_dedup_struct_spec : forall l,
+  ids_nodup (map fst (dedup_struct l)) = true /\
+  (forall k, struct_lookup_last k (dedup_struct l) = struct_lookup_last k l) /\
+  (length (dedup_struct l) <= length l)%nat.
+Proof. exact dedup_struct_spec. Qed.
+Print Assumptions C01_dedup_struct_spec.
+
+Theorem C01_dedup_set_spec : forall l,
+  keys_nodup (dedup_set l) = true /\
+  (forall k, existsb (key_eqb k) (dedup_set l) = existsb (key_eqb k) l) /\
+  (length (dedup_set l) <= length l)%nat.
+Proof. exact dedup_set_spec. Qed.
+Print Assumptions C01_dedup_set_spec.
+
+(* key equality of the model is equality *)
+Theorem C01_key_eqb_eq : forall a b, key_eqb a b = true <-> a = b.
+Proof. exact key_eqb_eq. Qed.
+Print Assumptions C01_key_eqb_eq.
+
+(* duplicates present: not wf, wfd, decoded to the last-wins normal form in both epochs *)
+Example C01_dup_witness :
+  wf true dup_map = false /\ wfd true dup_map = true /\
+  norm dup_map = VMap (KInt U8) [(KeyZ 2, VBool true); (KeyZ 1, VBool false)] /\
+  (bs <- serialize E2 dup_map ;; de_as_value true bs) = Ok (norm dup_map) /\
+  (bs <- serialize E1 dup_map ;; de_as_value true bs) = Ok (norm dup_map) /\
+  wfd true dup_struct = true /\
+  norm dup_struct = VStruct [(1, VNone); (3, VSet KStr [KeyB [98]; KeyB [97]])] /\
+  (bs <- serialize E2 dup_struct ;; de_as_value true bs) = Ok (norm dup_struct) /\
+  (bs <- serialize E1 dup_struct ;; de_as_value true bs) = Ok (norm dup_struct).
+Proof. exact dup_witness. Qed.
+
+(* whatever the wire bytes (any order, any duplicates, either epoch, with or without UTF-8
+   validation): a decoded value has no key twice in any map, set or struct at any nesting level *)
+Theorem C01_decoded_no_duplicates : forall utf8 b v r, de_value utf8 b = Ok (v, r) -> nodups v = true.
+Proof. exact decoded_no_duplicates. Qed.
+Print Assumptions C01_decoded_no_duplicates.
